@@ -151,6 +151,8 @@ func init() {
 				add("skiplist-to-hashmap-k2-k2", merge(base, p("k", 2, "k2", 2, "ops", opPut|opDelete, "vlens", 2, "index", 2, "shards", 2, "r_index", 3, "r_shards", 1, "dfs_lo", 40, "dfs_hi", 100)))
 				add("batch-k2", merge(base, p("k", 2, "k2", 0, "ops", opPut|opBatch, "bmax", 2, "vlens", 2, "index", 3, "shards", 1, "r_index", 1)))
 				add("batch-k1-k1", merge(base, p("k", 1, "k2", 1, "ops", opBatch, "bmax", 2, "vlens", 2, "index", 3, "shards", 1, "r_index", 2, "dfs_lo", 100, "dfs_hi", 180)))
+				// batch, plain write, batch: sfcollide: every later batch either shares the previous time-based id (same millisecond) or gets the next one
+				add("batch-put-batch-k3", merge(base, p("k", 3, "k2", 0, "ops", opPut|opDelete|opBatch, "bmax", 1, "vlens", 1, "index", 3, "shards", 1, "sfcollide", 1)))
 				add("mmap-to-std-k2-k1", merge(base, p("k", 2, "k2", 1, "ops", opPut|opDelete, "index", 3, "shards", 1, "io", 1, "r_io", 1)))
 				add("std-to-mmap-k2-k1", merge(base, p("k", 2, "k2", 1, "ops", opPut|opDelete, "index", 3, "shards", 1, "io", 0, "r_io", 2)))
 				add("merge-k3", merge(base, p("k", 3, "k2", 1, "ops", opPut|opDelete|opMerge, "vlens", 2, "index", 1, "shards", 1)))
@@ -346,6 +348,8 @@ func init() {
 				add("twelve-files-k2", merge(base, p("fill", 12, "k", 2, "ops", opPut|opDelete|opMerge|opRestart, "vlens", 1, "dfs_lo", 20, "dfs_hi", 20)))
 				add("cfgsweep-k2", merge(base, p("cfgsweep", 2, "k", 2, "ops", opPut|opDelete|opRestart, "vlens", 1, "dfs_lo", 40, "dfs_hi", 40)))
 				add("batch-put-delete-cycles-then-filler", merge(base, p("k", 1, "ops", opBatch, "bcycles", 3, "bmax", 1, "vlens", 4, "vbig", 25, "vbig2", -60, "dfs_lo", 100, "dfs_hi", 200)))
+				// 40-byte keys: three committed keys, then one batch of up to 3 puts/deletes of them
+				add("long-keys-batch-of-3", merge(base, p("ckeys", 6, "fill", 3, "k", 1, "ops", opBatch, "bmax", 3, "vlens", 1, "dfs_lo", 200, "dfs_hi", 420)))
 				// merge-ratio policy with the 256 MiB floor scaled to 20 bytes and DataFileMergeRatio 0.5
 				js = append(js, JobSpec{Name: "merge-ratio-policy-k3", Harness: "root", Func: "verifHarnessC17", Params: merge(base, p("k", 3, "ops", opPut|opDelete|opMerge, "vlens", 1, "ratio_pct", 50, "ratio_floor", 20, "dfs_lo", 60, "dfs_hi", 60)),
 					Scale: map[string]string{"datafile/log_record.go:blockSize": "32", "fio/mmap.go:blockSize": "128", "value:268435456": "20"}})
@@ -633,7 +637,7 @@ func init() {
 				add("k1-batch", merge(base, p("k", 1, "ops", opBatch, "bmax", 2, "vlens", 1)))
 				// the damage happens while the database is OPEN (stale cached sizes, pooled buffers still holding other
 				// blocks); DataFileSize 20 puts every record into its own file at the same in-block offset
-				add("k2-damaged-while-open", merge(base, p("k", 2, "ops", opPut, "vlens", 1, "live", 1, "dfs_lo", 20, "dfs_hi", 20)))
+				add("k2-damaged-while-open", merge(base, p("k", 2, "ops", opPut, "vlens", 3, "vbig", 8, "live", 1, "dfs_lo", 30, "dfs_hi", 30)))
 				add("k2-damaged-while-open-onefile", merge(base, p("k", 2, "ops", opPut|opDelete, "vlens", 2, "live", 1)))
 			} else {
 				add("k3", merge(base, p("k", 3, "ops", opPut|opDelete)))
